@@ -192,6 +192,16 @@ def id_members(v):
     return None
 
 
+class SDumpedSP(Sym):
+    def __init__(self, d):
+        self.d = d
+
+    def sym_getattr(self, ex, name):
+        if name == "encode":
+            return NativeStub(lambda *a: self, "str.encode")
+        raise Unsupported(f"str.{name} on a JSON text")
+
+
 class JobCtx(FSModel, Ctx):
     """Context for functions of job.py / project.py that touch the file system."""
 
@@ -200,6 +210,15 @@ class JobCtx(FSModel, Ctx):
         self.faults = case.get("faults", getattr(contract, "faults", True))
         self.rg = False
         self.externals[open] = self.x_open
+        self.externals[json.dumps] = self.x_json_dumps_sp
+
+    def x_json_dumps_sp(self, interp, v, **k):
+        """json.dumps of a state point (mapping): its canonical text (the writer contract)"""
+        try:
+            e = spv_of(v)
+        except Unsupported:
+            raise Unsupported("json.dumps of this value")
+        return SDumpedSP(canon(e))
 
     # ---- builtin open(): the persistent files of a job (state point, document) are only ever replaced through the collection classes
     # (temp file + os.replace when write_concern is set); opening one of them for writing truncates it in place, which a reader or a
